@@ -38,7 +38,7 @@ typedef struct pair1_sock pair1_sock;
 static void pair1_pipe_send_cb(void *);
 static void pair1_pipe_recv_cb(void *);
 static void pair1_pipe_fini(void *);
-static void pair1_send_sched(pair1_sock *);
+static void pair1_send_sched(pair1_sock *, pair1_pipe *);
 static void pair1_pipe_send(pair1_pipe *, nni_msg *);
 
 // pair1_sock is our per-socket protocol private structure.
@@ -298,7 +298,7 @@ pair1_pipe_start(void *arg)
 	s->rd_ready = false;
 	nni_mtx_unlock(&s->mtx);
 
-	pair1_send_sched(s);
+	pair1_send_sched(s, p);
 
 	// And the pipe read of course.
 	nni_pipe_recv(p->pipe, &p->aio_recv);
@@ -362,6 +362,13 @@ pair1_pipe_recv_cb(void *arg)
 	nni_msg_header_append_u32(msg, hdr);
 
 	nni_mtx_lock(&s->mtx);
+	if (s->p != p) {
+		// the pipe was stopped while this receive completed
+		nni_mtx_unlock(&s->mtx);
+		nni_aio_set_msg(&p->aio_recv, NULL);
+		nni_msg_free(msg);
+		return;
+	}
 
 	// if anyone is blocking, then the lmq will be empty, and
 	// we should deliver it there.
@@ -387,7 +394,7 @@ pair1_pipe_recv_cb(void *arg)
 }
 
 static void
-pair1_send_sched(pair1_sock *s)
+pair1_send_sched(pair1_sock *s, pair1_pipe *from)
 {
 	pair1_pipe *p;
 	nni_msg    *m;
@@ -396,7 +403,8 @@ pair1_send_sched(pair1_sock *s)
 
 	nni_mtx_lock(&s->mtx);
 
-	if ((p = s->p) == NULL) {
+	if (((p = s->p) == NULL) || (p != from)) {
+		// (a stopped pipe's completion must not touch the current one)
 		nni_mtx_unlock(&s->mtx);
 		return;
 	}
@@ -449,7 +457,7 @@ pair1_pipe_send_cb(void *arg)
 		return;
 	}
 
-	pair1_send_sched(p->pair);
+	pair1_send_sched(p->pair, p);
 }
 
 static void
